@@ -21,6 +21,11 @@ import (
 type Run struct {
 	Label string     `json:"label"`
 	Spec  simrt.Spec `json:"spec"`
+	// Procs: GOMAXPROCS of the simulated process ("" = 1). The program under test has
+	// one goroutine; runs at 4/16 exist to expose a source the simulator does not own
+	// (a newly introduced goroutine, pointer-address ordering): such a difference is a
+	// violation of C12 all the same, but it can only be replayed statistically.
+	Procs string `json:"procs,omitempty"`
 }
 
 // Out is what the orchestrator observed of one simulated process.
